@@ -291,8 +291,7 @@ func whereLeaves(exprs []topExpr, softDelete bool) []interface{} {
 	return out
 }
 
-func (c *Chain) topExprs(m Mode) []topExpr {
-	var out []topExpr
+func (c *Chain) topExprs(m Mode) (out []topExpr) {
 	group := func(u Unit) []topExpr {
 		if u.Form != "group" {
 			return nil
@@ -304,6 +303,26 @@ func (c *Chain) topExprs(m Mode) []topExpr {
 		return in
 	}
 	var scoped []topExpr
+	defer func() {
+		// FindInBatches groups the chain's conditions when one of them is an Or, before scopes run and
+		// before it appends its cursor (finisher_api.go)
+		if c.Fin != "batches" {
+			return
+		}
+		hasOr := false
+		for _, cd := range c.Conds {
+			hasOr = hasOr || cd.Op == "or"
+		}
+		if !hasOr {
+			return
+		}
+		n := len(out) - len(scoped)
+		g := topExpr{inner: append([]topExpr(nil), out[:n]...)}
+		for _, e := range g.inner {
+			g.leaves = append(g.leaves, e.leaves...)
+		}
+		out = append([]topExpr{g}, out[n:]...)
+	}()
 	for _, cd := range c.Conds {
 		switch cd.Op {
 		case "whereclause": // Clauses(clause.Where{Exprs}): every expression is a top-level condition of its own
